@@ -483,12 +483,15 @@ def describe(e, T):
 
 
 def observe(e, T):
-    """what came out of a hop: nested lists with every text replaced by its sha1"""
-    live = '-' if e.__traceback__ is None else _sha(fmt_own(e))
+    """an observed exception object graph: nested lists with every text replaced by its sha1"""
+    live, pre = '-', ''
+    if e.__traceback__ is not None:
+        pre, own = _split_chain(e)
+        live = _sha(own)
     if isinstance(e.__cause__, RemoteTraceback):
         cause = ['r', _sha(e.__cause__.tb)]
-    elif e.__cause__ is not None or (e.__context__ is not None and not e.__suppress_context__):
-        cause = ['o', '?']
+    elif pre:
+        cause = ['o', _sha(pre)]
     else:
         cause = ['n']
     ents = []
@@ -710,20 +713,22 @@ def _run_case(case, T, info, res):
         if snap is None:
             snap = snapshot(x, f'[{h["proc"]}] ')
         was_remote_text = get_remote_traceback(x) if is_remote_exception(x) else None
+        wobs = 'none'
         try:
             r = RemoteException(x, tbarg)
+            wobs = [_sha(r.tb) if isinstance(r.tb, str) else '?', observe(r.exc, T)]
             y = pickle.loads(pickle.dumps(r))
         except ValueError as err:
-            res['hops'].append(dict(line=line, obs='none', err=repr(err)[:200]))
+            res['hops'].append(dict(line=line, obs='none', wobs=wobs, err=repr(err)[:200]))
             if hyp:
                 mon.append(dict(prop='C15', rule='wrap-failed', detail=f'hop {k}: RemoteException raised {err!r} '
                                 'for an exception that carries tracebacks'))
             break
         except Exception as err:  # noqa
-            res['hops'].append(dict(line=line, obs='error', err=repr(err)[:300]))
+            res['hops'].append(dict(line=line, obs='error', wobs=wobs, err=repr(err)[:300]))
             mon.append(dict(prop='C15', rule='hop-crashed', detail=f'hop {k}: {type(err).__name__}: {err!r}'[:300]))
             break
-        res['hops'].append(dict(line=line, obs=observe(y, T)))
+        res['hops'].append(dict(line=line, obs=observe(y, T), wobs=wobs))
         # ---- the property, directly on the real objects ----
         hits = []
         compare(snap, y, [], hits, first_texts, True)
@@ -817,11 +822,14 @@ def compare_with_model(cid, case, res, out_lines):
     if res.get('skipped'):
         return None
     outs = {}
+    wrps = {}
     okq = None
     for l in out_lines:
         w = l.split()
         if w[0] == 'out':
             outs[int(w[2])] = w[3:]
+        elif w[0] == 'wrp':
+            wrps[int(w[2])] = w[3:]
         elif w[0] == 'okq':
             okq = w[2] == '1'
         elif w[0] == 'BAD':
@@ -835,6 +843,18 @@ def compare_with_model(cid, case, res, out_lines):
             return f'hop {k}: no answer from the driver'
         if h['obs'] == 'error':
             return f'hop {k}: the real hop crashed ({h.get("err")}) — the model has no such outcome'
+        # the constructor alone: (self.tb, self.exc) against `wrapWith`
+        wp = wrps.get(k)
+        if wp is None:
+            return f'hop {k}: no wrp answer from the driver'
+        if wp == ['none']:
+            wpred = 'none'
+        else:
+            toks = [int(x) for x in wp[0].split('=', 1)[1].split(',') if x != '']
+            wpred = [_sha(''.join(res['pieces'][t] for t in toks)), parse_tree(wp[1:], res['pieces'])]
+        if wpred != h['wobs']:
+            return (f'hop {k} ({h["line"]}): constructor: model predicts (tb, exc) = {_short(wpred)} / '
+                    f'real RemoteException has {_short(h["wobs"])}')
         if outs[k] == ['none']:
             pred = 'none'
         else:
